@@ -11,8 +11,8 @@ set -u
 cd "$(dirname "$0")" || exit 2
 ID="$1"
 case "$ID" in
-  C04) TARGET=decode_total; TOTAL_RUNS=${FUZZ_RUNS:-64000000}; MAXLEN=16384 ;;
-  C06) TARGET=volume_total; TOTAL_RUNS=${FUZZ_RUNS:-12000000}; MAXLEN=8192 ;;
+  C04) TARGET=decode_total; TOTAL_RUNS=${FUZZ_RUNS:-160000000}; MAXLEN=16384 ;;
+  C06) TARGET=volume_total; TOTAL_RUNS=${FUZZ_RUNS:-24000000}; MAXLEN=8192 ;;
   *) echo "fuzz campaigns exist for C04 and C06"; exit 2 ;;
 esac
 PROCS=${FUZZ_PROCS:-16}
